@@ -103,7 +103,6 @@ Qed.
 
 Section Calls.
 Variable refuse : N -> N -> bool.
-Variable L : N.
 
 (* ---- constructors of one block: cbor_new_int8..64, cbor_new_float2/4/8, cbor_new_ctrl ---- *)
 
@@ -560,7 +559,9 @@ Qed.
 Lemma tag_set_move_wp own ownd p q w rc v rcq nq :
   Inv own ownd [] w -> heap w p = Some (CItem rc (NTag v None)) ->
   0 < own q -> heap w q = Some (CItem rcq nq) -> rcq < W64 -> p <> q ->
-  wp (move q ;;; tag_set_item p q) w (fun _ w' => Inv (own_dec own q) ownd [] w').
+  wp (move q ;;; tag_set_item p q) w
+     (fun _ w' => Inv (own_dec own q) ownd [] w' /\
+                  (forall b, heap w' b = upd (heap w) p (Some (CItem rc (NTag v (Some q)))) b) /\ next w' = next w).
 Proof.
   intros I Ep Oq Eq Rq Hpq.
   destruct (moved_facts own ownd w q rcq nq I Eq) as (Pq & H1 & N1 & W1 & E1q & O1).
@@ -574,13 +575,17 @@ Proof.
   eapply wp_eq; [eapply wr_item_spec; wsimpl; exact E2p|].
   assert (OM : forall y, own y = own_dec own q y + cnt y [q]).
   { exact (own_dec_split own q Oq). }
-  eapply (Inv_link_same own (own_dec own q) ownd w _ p rc (NTag v None) (NTag v (Some q)) [q] I Ep OM).
-  - wsimpl. apply upd_same.
-  - intros b Hb. subst w2. wsimpl. rewrite upd_other by exact Hb.
+  set (w3 := w_set p (CItem rc (NTag v (Some q))) (w_log (AccR p) w2)).
+  assert (HH : forall b, heap w3 b = upd (heap w) p (Some (CItem rc (NTag v (Some q)))) b).
+  { intros b. subst w3 w2. wsimpl. unfold upd at 1 3. destruct (N.eqb_spec b p) as [->|Hb]; [reflexivity|].
     unfold upd. destruct (N.eqb_spec b q) as [->|Hbq].
-    + rewrite wrap64_pred_succ by assumption. symmetry. exact Eq.
-    + apply O1. exact Hbq.
-  - reflexivity.
+    - rewrite wrap64_pred_succ by assumption. symmetry. exact Eq.
+    - apply O1. exact Hbq. }
+  split; [|split; [exact HH|exact N1]].
+  eapply (Inv_link_same own (own_dec own q) ownd w w3 p rc (NTag v None) (NTag v (Some q)) [q] I Ep OM).
+  - rewrite HH. apply upd_same.
+  - intros b Hb. rewrite HH. apply upd_other. exact Hb.
+  - exact N1.
   - intros y. reflexivity.
   - intros y. reflexivity.
 Qed.
@@ -592,7 +597,7 @@ Theorem tag_set_move_step s own ownd w t x p q rc v rcq nq :
   exists w', tag_set_move s t x w = Ret (s, Out OutUnit) w' /\ Inv (own_dec own q) ownd [] w'.
 Proof.
   intros I Ht Hx Hs Oq Hpq Ep Eq Rq.
-  destruct (tag_set_move_wp own ownd p q w rc v rcq nq I Ep Oq Eq Rq Hpq) as (u & w' & E & P).
+  destruct (tag_set_move_wp own ownd p q w rc v rcq nq I Ep Oq Eq Rq Hpq) as (u & w' & E & P & _).
   exists w'. split; [|exact P].
   unfold tag_set_move. rewrite Ht, Hx, Hs.
   unfold bind in E |- *. destruct (move q w) as [u1 w1|k]; [|discriminate E].
@@ -605,7 +610,9 @@ Lemma build_tag_move_wp own ownd v q w rcq nq :
   Inv own ownd [] w -> 0 < own q -> heap w q = Some (CItem rcq nq) -> rcq < W64 ->
   wp (move q ;;; build_tag refuse v q) w
      (fun r w' => match r with
-                  | Some t => t = next w /\ Inv (own1 (own_dec own q) t) ownd [] w'
+                  | Some t => t = next w /\ Inv (own1 (own_dec own q) t) ownd [] w' /\
+                              (forall b, heap w' b = upd (heap w) (next w) (Some (CItem 1 (NTag v (Some q)))) b) /\
+                              next w' = next w + 1
                   | None => (forall b, heap w' b = upd (heap w) q (Some (CItem (rcq - 1) nq)) b) /\ next w' = next w
                   end).
 Proof.
@@ -638,15 +645,20 @@ Proof.
     { unfold own1. eapply (Inv_alloc_item_pw own ownd w g1 (NTag v None) I); reflexivity. }
     assert (OM : forall y, own1 own t y = own1 (own_dec own q) t y + cnt y [q]).
     { intros y. unfold own1. rewrite (own_dec_split own q Oq y). lia. }
-    eapply (Inv_link_same (own1 own t) (own1 (own_dec own q) t) ownd g1 _ t 1 (NTag v None) (NTag v (Some q)) [q] I1).
+    set (w4 := w_set t (CItem 1 (NTag v (Some q))) (w_log (AccR t) w3)).
+    assert (HH : forall b, heap w4 b = upd (heap w) t (Some (CItem 1 (NTag v (Some q)))) b).
+    { intros b. subst w4 w3 w2. wsimpl. rewrite Ht. unfold upd at 1 4. destruct (N.eqb_spec b t) as [->|Hb]; [reflexivity|].
+      unfold upd at 1. destruct (N.eqb_spec b q) as [->|Hbq].
+      - rewrite wrap64_pred_succ by assumption. symmetry. exact Eq.
+      - rewrite upd_other by exact Hb. apply O1. exact Hbq. }
+    assert (N4 : next w4 = t + 1) by (subst w4 w3 w2; wsimpl; rewrite Ht; reflexivity).
+    split; [|split; [exact HH|exact N4]].
+    eapply (Inv_link_same (own1 own t) (own1 (own_dec own q) t) ownd g1 w4 t 1 (NTag v None) (NTag v (Some q)) [q] I1).
     + cbn [heap g1 ghost]. apply upd_same.
     + exact OM.
-    + wsimpl. apply upd_same.
-    + intros b Hb. subst w3 w2. wsimpl. rewrite Ht. rewrite upd_other by exact Hb. cbn [heap g1 ghost].
-      unfold upd at 1. destruct (N.eqb_spec b q) as [->|Hbq].
-      * rewrite wrap64_pred_succ by assumption. rewrite upd_other by exact Hqt. symmetry. exact Eq.
-      * rewrite !upd_other by exact Hb. apply O1. exact Hbq.
-    + subst w3 w2. wsimpl. rewrite Ht. reflexivity.
+    + rewrite HH. apply upd_same.
+    + intros b Hb. rewrite HH. cbn [heap g1 ghost]. rewrite !upd_other by exact Hb. reflexivity.
+    + exact N4.
     + intros y. reflexivity.
     + intros y. reflexivity.
 Qed.
@@ -670,7 +682,7 @@ Proof.
     unfold bind in E. destruct (move q w) as [u1 w1|k] eqn:M; [|discriminate E].
     rewrite (bind_Ret _ _ _ _ _ M). apply lift3_newh_eq. exact E. }
   rewrite E'. eexists _, _, _. split; [reflexivity|]. destruct r as [t|].
-  - destruct P as [-> P]. left. auto.
+  - destruct P as (-> & P & _). left. auto.
   - destruct P as [Hh Hn]. right. split; [reflexivity|]. split; [reflexivity|]. split; [exact Hh|]. split; [exact Hn|].
     intros Hrc. eapply (Inv_move own ownd w w' q rcq nq I Eq Oq Hrc Hh Hn).
 Qed.
@@ -904,7 +916,7 @@ Qed.
 
 Lemma preds3_wp s own ownd w h a rc n0 :
   Inv own ownd [] w -> hget (base s) h = Some a -> heap w a = Some (CItem rc n0) ->
-  wp (preds3 s h) w (fun r w' => r = (s, OutVals (preds_of n0)) /\ Inv own ownd [] w' /\ w' = w_log (AccR a) w).
+  wp (preds3 s h) w (fun r w' => r = (s, OutVals (preds_of rc n0)) /\ Inv own ownd [] w' /\ w' = w_log (AccR a) w).
 Proof.
   intros I Hh E. unfold preds3. rewrite Hh. apply wp_bind. eapply wp_eq; [apply rd_item_spec; exact E|].
   apply wp_ret. cbn [snd]. split; [reflexivity|]. split; [|reflexivity].
@@ -913,7 +925,7 @@ Qed.
 
 Lemma vals3_wp s own ownd w h a rc n0 :
   Inv own ownd [] w -> hget (base s) h = Some a -> memN a (unset s) = false -> heap w a = Some (CItem rc n0) ->
-  wp (vals3 s h) w (fun r w' => r = (s, OutVals (preds_of n0 ++ values_of n0)) /\ Inv own ownd [] w' /\ w' = w_log (AccR a) w).
+  wp (vals3 s h) w (fun r w' => r = (s, OutVals (preds_of rc n0 ++ values_of n0)) /\ Inv own ownd [] w' /\ w' = w_log (AccR a) w).
 Proof.
   intros I Hh Hs E. unfold vals3. rewrite Hh, Hs. apply wp_bind. eapply wp_eq; [apply rd_item_spec; exact E|].
   apply wp_ret. cbn [snd]. split; [reflexivity|]. split; [|reflexivity].
@@ -923,6 +935,8 @@ Qed.
 (* ------------------------------------------------------------------------------------------ *)
 (* 3. [caps] is kept by every call of the layer (no side condition)                            *)
 (* ------------------------------------------------------------------------------------------ *)
+
+Variable L : N.   (* CBOR_MAX_STACK_SIZE: only the calls of the first layer (cbor_load) depend on it *)
 
 Lemma kq_lift3 s (m : M (cstate * out)) : keeps m -> keeps (lift3 s m).
 Proof. intros H. unfold lift3. apply kq_bindT; [exact H|]. intros r. apply kq_ret. exact Logic.I. Qed.
@@ -1328,6 +1342,672 @@ Qed.
 End Calls.
 
 (* ------------------------------------------------------------------------------------------ *)
+(* 4b. the containment graph stays acyclic under the calls of the third layer                  *)
+(* ------------------------------------------------------------------------------------------ *)
+
+(* every cell of [w'] that holds references sits where a cell of [w] held (at least) the same ones *)
+Lemma edges_sub_local w w' :
+  (forall b rc n k, heap w' b = Some (CItem rc n) -> rc <> 0 -> In k (kids n) ->
+     exists rc0 n0, heap w b = Some (CItem rc0 n0) /\ rc0 <> 0 /\ In k (kids n0)) ->
+  edges_sub no_new w w'.
+Proof.
+  intros H a k (rc & n & E & R & K). left. destruct (H a rc n k E R K) as (rc0 & n0 & E0 & R0 & K0).
+  exists rc0, n0. auto.
+Qed.
+
+(* one cell is overwritten by a cell without references (a leaf item, a data block) *)
+Lemma edges_sub_leaf w w' a c :
+  (forall rc n, c = Some (CItem rc n) -> kids n = []) ->
+  (forall b, heap w' b = upd (heap w) a c b) -> edges_sub no_new w w'.
+Proof.
+  intros Hc Hh. apply edges_sub_local. intros b rc n k E R K. rewrite Hh in E. unfold upd in E.
+  destruct (N.eqb_spec b a) as [->|_].
+  - rewrite (Hc rc n E) in K. destruct K.
+  - exists rc, n. auto.
+Qed.
+
+Lemma edges_sub_leaf2 w w' a c a2 c2 :
+  (forall rc n, c = Some (CItem rc n) -> kids n = []) -> (forall rc n, c2 = Some (CItem rc n) -> kids n = []) ->
+  (forall b, heap w' b = upd (upd (heap w) a c) a2 c2 b) -> edges_sub no_new w w'.
+Proof.
+  intros Hc Hc2 Hh. apply edges_sub_local. intros b rc n k E R K. rewrite Hh in E. unfold upd in E.
+  destruct (N.eqb_spec b a2) as [->|_]; [rewrite (Hc2 rc n E) in K; destruct K|].
+  destruct (N.eqb_spec b a) as [->|_]; [rewrite (Hc rc n E) in K; destruct K|].
+  exists rc, n. auto.
+Qed.
+
+(* the count of one live cell changes (to anything) *)
+Lemma edges_sub_count w w' x rc rc' n :
+  heap w x = Some (CItem rc n) -> rc <> 0 ->
+  (forall b, heap w' b = upd (heap w) x (Some (CItem rc' n)) b) -> edges_sub no_new w w'.
+Proof.
+  intros Ex R Hh. apply edges_sub_local. intros b rcb nb k E Rb K. rewrite Hh in E. unfold upd in E.
+  destruct (N.eqb_spec b x) as [->|_].
+  - injection E as <- <-. exists rc, n. auto.
+  - exists rcb, nb. auto.
+Qed.
+
+Lemma edges_sub_no_new_trans w w1 w2 : edges_sub no_new w w1 -> edges_sub no_new w1 w2 -> edges_sub no_new w w2.
+Proof.
+  intros S1 S2. eapply edges_sub_weaken; [eapply edges_sub_trans; [exact S1|exact S2]|]. intros a k [[]|[]].
+Qed.
+
+Lemma edges_sub_pre (New : addr -> addr -> Prop) w w1 w2 :
+  edges_sub no_new w w1 -> edges_sub New w1 w2 -> edges_sub New w w2.
+Proof.
+  intros S1 S2. eapply edges_sub_weaken; [eapply edges_sub_trans; [exact S1|exact S2]|]. intros a k [[]|H]. exact H.
+Qed.
+
+(* an empty tag takes its item *)
+Lemma edges_sub_tagset w w' p q rc v :
+  heap w p = Some (CItem rc (NTag v None)) ->
+  (forall b, heap w' b = upd (heap w) p (Some (CItem rc (NTag v (Some q)))) b) ->
+  edges_sub (fun a k => a = p /\ k = q) w w'.
+Proof.
+  intros Ep Hh a k (rca & na & E & Ra & Ka). rewrite Hh in E. unfold upd in E.
+  destruct (N.eqb_spec a p) as [->|_].
+  - injection E as <- <-. cbn [kids] in Ka. destruct Ka as [<-|[]]. right. auto.
+  - left. exists rca, na. auto.
+Qed.
+
+(* the no-cycle rule for the idioms that insert an item: as in HHist_proofs.below_rule, the client can
+   exhibit a topological order in which the inserted item lies below the container (cbor_build_tag makes
+   a fresh tag: nothing to ask) *)
+Definition below_rule3 (s : cstate3) (w : world) (o : op3) : Prop :=
+  match o with
+  | O3Old o => below_rule (base s) w o
+  | O3PushMove a x | O3TagSetMove a x =>
+      forall p q, hget (base s) a = Some p -> hget (base s) x = Some q ->
+        exists rank, ranks w rank /\ (rank q < rank p)%nat
+  | O3MapAddMove m k v =>
+      forall p q r, hget (base s) m = Some p -> hget (base s) k = Some q -> hget (base s) v = Some r ->
+        exists rank, ranks w rank /\ (rank q < rank p)%nat /\ (rank r < rank p)%nat
+  | _ => True
+  end.
+
+Section Acyclic3.
+Variable refuse : N -> N -> bool.
+Variable L : N.
+
+Lemma wp_assoc {A B C} (m : M A) (f : A -> M B) (g : B -> M C) w (Q : C -> world -> Prop) :
+  wp ((m >>= f) >>= g) w Q -> wp (m >>= (fun a => f a >>= g)) w Q.
+Proof.
+  intros (c & w' & E & HQ). exists c, w'. split; [|exact HQ]. unfold bind in *.
+  destruct (m w) as [a w1|k]; [|discriminate E]. exact E.
+Qed.
+
+Lemma wp_assoc2 {A B C D} (m : M A) (f : A -> M B) (g : A -> B -> M C) (h : C -> M D) w (Q : D -> world -> Prop) :
+  wp ((m >>= fun a => f a >>= g a) >>= h) w Q -> wp (m >>= fun a => f a >>= fun b => g a b >>= h) w Q.
+Proof.
+  intros (c & w' & E & HQ). exists c, w'. split; [|exact HQ]. unfold bind in *.
+  destruct (m w) as [a w1|k]; [|discriminate E]. destruct (f a w1) as [b w2|k]; [|discriminate E]. exact E.
+Qed.
+
+Lemma wp_lift3_any s (m : M (cstate * out)) w (Q : world -> Prop) :
+  wp m w (fun _ w' => Q w') -> wp (lift3 s m) w (fun _ w' => Q w').
+Proof.
+  intros H. unfold lift3. apply wp_bind. eapply wp_mono; [exact H|]. intros r w' P. apply wp_ret. exact P.
+Qed.
+
+(* cbor_array_push(p, cbor_move(q)) on an item that has another reference *)
+Lemma push_move_edges own ownd p q w rc indef d c l rcq nq :
+  Inv own ownd [] w -> heap w p = Some (CItem rc (NArr indef d c l)) -> capinvA indef d c l ->
+  heap w q = Some (CItem rcq nq) -> 1 < rcq -> p <> q ->
+  wp (move q ;;; array_push refuse p q) w (fun _ w' => edges_sub (fun a k => a = p /\ k = q) w w').
+Proof.
+  intros I Ep Cap Eq Hrc Hpq.
+  destruct (moved_facts refuse own ownd w q rcq nq I Eq) as (Pq & H1 & N1 & W1 & E1q & O1).
+  apply wp_bind. eapply wp_eq; [apply move_spec; exact Eq|].
+  set (w1 := w_move q rcq nq w) in *.
+  assert (E1p : heap w1 p = Some (CItem rc (NArr indef d c l))) by (rewrite O1 by exact Hpq; exact Ep).
+  assert (S1 : edges_sub no_new w w1) by (eapply (edges_sub_count w w1 q rcq _ nq Eq); [lia|exact H1]).
+  eapply wp_mono.
+  - eapply (array_push_gen refuse indef p w1 q d c l rc (rcq - 1) nq W1 E1p); [|exact Cap|exact E1q|exact Hpq].
+    intros b ->. destruct (Inv_blocks _ _ _ _ _ _ I Ep b ltac:(left; reflexivity)) as [(sz & Eb) _].
+    exists sz. rewrite O1; [exact Eb|]. intros ->. rewrite Eq in Eb. discriminate.
+  - intros ok w' P. eapply edges_sub_pre; [exact S1|].
+    eapply (gpush_edges p rc _ _ _ w1 q d (rcq - 1) nq ok w' W1 E1p E1q); [lia| |exact P].
+    intros d' c' k Hk. cbn [kids] in *. apply in_app_or in Hk. destruct Hk as [Hk|[<-|[]]]; auto.
+Qed.
+
+(* cbor_map_add(p, {cbor_move(q), cbor_move(r)}) *)
+Lemma map_add_move_edges own ownd p q r w rc indef d c l rcq nq rcr nr :
+  Inv own ownd [] w -> heap w p = Some (CItem rc (NMap indef d c l)) -> capinvM indef d c l ->
+  heap w q = Some (CItem rcq nq) -> heap w r = Some (CItem rcr nr) -> 1 < rcq -> 1 < rcr -> (q = r -> 2 < rcq) ->
+  p <> q -> p <> r ->
+  wp (move q ;;; move r ;;; map_add refuse p q r) w
+     (fun _ w' => edges_sub (fun a k => a = p /\ (k = q \/ k = r)) w w').
+Proof.
+  intros I Ep Cap Eq Er H1q H1r H2 Hpq Hpr.
+  destruct (moved_facts' w q rcq nq (Inv_wf _ _ _ _ I) Eq ltac:(lia)) as (H1 & N1 & W1 & E1q & O1).
+  apply wp_bind. eapply wp_eq; [apply move_spec; exact Eq|].
+  set (w1 := w_move q rcq nq w) in *.
+  assert (S1 : edges_sub no_new w w1) by (eapply (edges_sub_count w w1 q rcq _ nq Eq); [lia|exact H1]).
+  assert (Hb : forall b, d = Some b -> is_data w b).
+  { intros b ->. apply (Inv_blocks _ _ _ _ _ _ I Ep). left. reflexivity. }
+  destruct (N.eq_dec q r) as [<-|Hqr].
+  - assert (rcr = rcq /\ nr = nq) as [-> ->] by (rewrite Eq in Er; injection Er as <- <-; auto).
+    specialize (H2 eq_refl).
+    destruct (moved_facts' w1 q (rcq - 1) nq W1 E1q ltac:(lia)) as (H2' & N2 & W2 & E2q & O2).
+    apply wp_bind. eapply wp_eq; [apply move_spec; exact E1q|].
+    set (w2 := w_move q (rcq - 1) nq w1) in *.
+    assert (S2 : edges_sub no_new w1 w2) by (eapply (edges_sub_count w1 w2 q (rcq - 1) _ nq E1q); [lia|exact H2']).
+    assert (E2p : heap w2 p = Some (CItem rc (NMap indef d c l))).
+    { rewrite O2 by exact Hpq. rewrite O1 by exact Hpq. exact Ep. }
+    eapply wp_mono.
+    + eapply (map_add_same_gen refuse indef p w2 q d c l rc (rcq - 1 - 1) nq W2 E2p); try assumption.
+      intros b Hd. destruct (Hb b Hd) as (sz & Eb). exists sz.
+      assert (Bq : b <> q) by (intros ->; rewrite Eq in Eb; discriminate).
+      rewrite O2 by exact Bq. rewrite O1 by exact Bq. exact Eb.
+    + intros ok w' P. eapply edges_sub_pre; [eapply edges_sub_no_new_trans; [exact S1|exact S2]|].
+      eapply edges_sub_weaken.
+      * eapply (msame_edges indef p rc w2 q d c l (rcq - 1 - 1) nq ok w' W2 E2p E2q); [lia|exact P].
+      * intros a k [-> ->]. auto.
+  - assert (E1r : heap w1 r = Some (CItem rcr nr)) by (rewrite O1 by (intros H; apply Hqr; symmetry; exact H); exact Er).
+    destruct (moved_facts' w1 r rcr nr W1 E1r ltac:(lia)) as (H2' & N2 & W2 & E2r & O2).
+    apply wp_bind. eapply wp_eq; [apply move_spec; exact E1r|].
+    set (w2 := w_move r rcr nr w1) in *.
+    assert (S2 : edges_sub no_new w1 w2) by (eapply (edges_sub_count w1 w2 r rcr _ nr E1r); [lia|exact H2']).
+    assert (E2q : heap w2 q = Some (CItem (rcq - 1) nq)) by (rewrite O2 by exact Hqr; exact E1q).
+    assert (E2p : heap w2 p = Some (CItem rc (NMap indef d c l))).
+    { rewrite O2 by exact Hpr. rewrite O1 by exact Hpq. exact Ep. }
+    eapply wp_mono.
+    + eapply (map_add_gen refuse indef p w2 q r d c l rc (rcq - 1) nq (rcr - 1) nr W2 E2p); try assumption.
+      intros b Hd. destruct (Hb b Hd) as (sz & Eb). exists sz.
+      assert (Bq : b <> q) by (intros ->; rewrite Eq in Eb; discriminate).
+      assert (Br : b <> r) by (intros ->; rewrite Er in Eb; discriminate).
+      rewrite O2 by exact Br. rewrite O1 by exact Bq. exact Eb.
+    + intros ok w' P. eapply edges_sub_pre; [eapply edges_sub_no_new_trans; [exact S1|exact S2]|].
+      eapply (mpush_edges indef p rc w2 q r d c l (rcq - 1) nq (rcr - 1) nr ok w' W2 E2p E2q); [lia|exact E2r|lia|exact P].
+Qed.
+
+(* cbor_build_tag(v, cbor_move(q)): the fresh tag goes on top of q in the order *)
+Lemma build_tag_move_acyclic own ownd v q w rcq nq :
+  Inv own ownd [] w -> 0 < own q -> heap w q = Some (CItem rcq nq) -> rcq < W64 -> acyclic w ->
+  wp (move q ;;; build_tag refuse v q) w (fun _ w' => acyclic w').
+Proof.
+  intros I Oq Eq Rq AC.
+  pose proof (Inv_nil_pos _ _ _ _ _ _ I Eq) as Pq. pose proof (live_lt _ _ _ _ _ _ I Eq) as Lq.
+  eapply wp_mono; [apply (build_tag_move_wp refuse own ownd v q w rcq nq I Oq Eq Rq)|].
+  intros r w' P. apply acyclic_ranks in AC. destruct AC as [rank HR]. apply acyclic_ranks.
+  destruct r as [t|].
+  - destruct P as (-> & _ & Hh & _).
+    exists (fun b => if b =? next w then S (rank q) else rank b).
+    intros a k (rca & na & E & Ra & Ka). rewrite Hh in E. unfold upd in E.
+    destruct (N.eqb_spec a (next w)) as [->|Ha].
+    + injection E as <- <-. cbn [kids] in Ka. destruct Ka as [<-|[]].
+      destruct (N.eqb_spec q (next w)); lia.
+    + pose proof (live_lt _ _ _ _ _ _ I E) as La.
+      destruct (Inv_kids_lt _ _ _ _ _ _ I E) as [KL _]. specialize (KL k Ka).
+      destruct (N.eqb_spec k (next w)); [lia|]. apply HR. exists rca, na. auto.
+  - destruct P as [Hh _]. exists rank. eapply (ranks_sub no_new); [exact HR| |intros ? ? []].
+    eapply (edges_sub_count w w' q rcq _ nq Eq); [lia|exact Hh].
+Qed.
+
+Theorem step3_acyclic s own ownd w o :
+  Inv own ownd [] w -> caps w -> legal3 s own w o -> acyclic w -> below_rule3 s w o ->
+  wp (step3 refuse L s o) w (fun _ w' => acyclic w').
+Proof.
+  intros I Cw Lg AC Bl. pose proof (Inv_wf _ _ _ _ I) as Hwf.
+  assert (Skip : forall (r : cstate3 * out3), wp (ret r) w (fun _ w' => acyclic w')).
+  { intros r. apply wp_ret. exact AC. }
+  assert (Sub : forall w', edges_sub no_new w w' -> acyclic w').
+  { intros w' S. eapply acyclic_sub; eassumption. }
+  assert (SubW : forall {A} (m : M A), wp m w (fun _ w' => edges_sub no_new w w') -> wp m w (fun _ w' => acyclic w')).
+  { intros A m H. eapply wp_mono; [exact H|]. intros u_ w' S. apply Sub. exact S. }
+  destruct o as [o|text|h bytes|h n|iw|iw h v|neg h|fw|fw h bits| |h v|h b|b| | |h|a x|m k v|t x|v x|h|bytes|k h n|h|h];
+    cbn [step3 legal3 below_rule3] in *.
+  - (* O3Old *)
+    destruct Lg as [Lo G]. unfold old3. rewrite G. apply wp_lift3_any.
+    exact (step_acyclic refuse L (base s) own ownd w o I Cw Lo AC Bl).
+  - (* O3NewDefString *)
+    apply wp_lift3_any. unfold new_definite_string_op, new_definite_string.
+    apply wp_newh_any, SubW, ctor1_edges; [exact Hwf|reflexivity].
+  - (* O3SetHandleNew *)
+    apply wp_lift3_any. destruct (hget (base s) h) as [a|] eqn:Hh.
+    + destruct (Lg a Hh) as (Oa & rc & text & b0 & E).
+      destruct (set_handle_new_step refuse (base s) own ownd w h a rc text b0 bytes I Cw Hh Oa E)
+        as (out & w' & R & _ & _ & _ & [(_ & _ & Hh' & _)|(_ & _ & _ & _ & _ & Hh' & _)]);
+        (eapply wp_eq; [exact R|]); apply Sub.
+      * apply edges_sub_same. intros b. rewrite Hh'. reflexivity.
+      * eapply (edges_sub_leaf2 w w'); [| |intros b; rewrite Hh'; reflexivity].
+        -- intros rc1 n1 H. discriminate H.
+        -- intros rc1 n1 H. injection H as _ <-. reflexivity.
+    + eapply wp_eq; [apply set_handle_new_skip; exact Hh|exact AC].
+  - (* O3SetHandleShorten *)
+    apply wp_lift3_any. destruct (hget (base s) h) as [a|] eqn:Hh.
+    + destruct (Lg a Hh) as (Oa & rc & text & data & bytes & E & Hn).
+      destruct (set_handle_shorten_step refuse (base s) own ownd w h a rc text data bytes n I Cw Hh Oa E Hn)
+        as (w' & R & _ & _ & _ & Hh' & _).
+      eapply wp_eq; [exact R|]. apply Sub.
+      eapply (edges_sub_leaf w w'); [|intros b; rewrite Hh'; reflexivity].
+      intros rc1 n1 H. injection H as _ <-. reflexivity.
+    + eapply wp_eq; [apply set_handle_shorten_skip; exact Hh|exact AC].
+  - (* O3NewInt *)
+    destruct (new_int_step refuse s own ownd w iw I Cw) as (s' & ok & w' & E & _ & _ & _ & [(_ & _ & _ & Hh & _)|(_ & _ & _ & _ & Hh & _)]);
+      (eapply wp_eq; [exact E|]); apply Sub.
+    + apply edges_sub_same. intros b. rewrite Hh. reflexivity.
+    + eapply edges_sub_leaf; [|intros b; rewrite Hh; reflexivity]. intros rc n H. injection H as _ <-. reflexivity.
+  - (* O3SetUint *)
+    destruct (hget (base s) h) as [a|] eqn:Hh; [|unfold set_uint; rewrite Hh; apply Skip].
+    destruct (Lg a eq_refl) as (_ & rc & neg & v0 & E).
+    destruct (set_uint_step s own ownd w iw h v a rc neg v0 I Cw Hh E) as (w' & R & _ & _ & _ & Hh' & _).
+    eapply wp_eq; [exact R|]. apply Sub. eapply edges_sub_leaf; [|intros b; rewrite Hh'; reflexivity].
+    intros rc1 n1 H. injection H as _ <-. reflexivity.
+  - (* O3Mark *)
+    destruct (hget (base s) h) as [a|] eqn:Hh; [|unfold mark_int; rewrite Hh; apply Skip].
+    destruct (Lg a eq_refl) as (_ & rc & neg0 & iw & v0 & E).
+    destruct (mark_int_step s own ownd w neg h a rc neg0 iw v0 I Cw Hh E) as (w' & R & _ & _ & _ & Hh' & _).
+    eapply wp_eq; [exact R|]. apply Sub. eapply edges_sub_leaf; [|intros b; rewrite Hh'; reflexivity].
+    intros rc1 n1 H. injection H as _ <-. reflexivity.
+  - (* O3NewFloat *)
+    destruct (new_float_step refuse s own ownd w fw I Cw) as (s' & ok & w' & E & _ & _ & _ & [(_ & _ & _ & Hh & _)|(_ & _ & _ & _ & Hh & _)]);
+      (eapply wp_eq; [exact E|]); apply Sub.
+    + apply edges_sub_same. intros b. rewrite Hh. reflexivity.
+    + eapply edges_sub_leaf; [|intros b; rewrite Hh; reflexivity]. intros rc n H. injection H as _ <-. reflexivity.
+  - (* O3SetFloat *)
+    destruct (hget (base s) h) as [a|] eqn:Hh; [|unfold set_float; rewrite Hh; apply Skip].
+    destruct (Lg a eq_refl) as (_ & rc & b0 & E).
+    destruct (set_float_step s own ownd w fw h bits a rc b0 I Cw Hh E) as (w' & R & _ & _ & _ & Hh' & _).
+    eapply wp_eq; [exact R|]. apply Sub. eapply edges_sub_leaf; [|intros b; rewrite Hh'; reflexivity].
+    intros rc1 n1 H. injection H as _ <-. reflexivity.
+  - (* O3NewCtrl *)
+    destruct (new_ctrl_step refuse s own ownd w I Cw) as (s' & ok & w' & E & _ & _ & _ & [(_ & _ & _ & Hh & _)|(_ & _ & _ & Hh & _)]);
+      (eapply wp_eq; [exact E|]); apply Sub.
+    + apply edges_sub_same. intros b. rewrite Hh. reflexivity.
+    + eapply edges_sub_leaf; [|intros b; rewrite Hh; reflexivity]. intros rc n H. injection H as _ <-. reflexivity.
+  - (* O3SetCtrl *)
+    destruct (hget (base s) h) as [a|] eqn:Hh; [|unfold set_ctrl; rewrite Hh; apply Skip].
+    destruct (Lg a eq_refl) as (_ & rc & v0 & E).
+    destruct (set_ctrl_step s own ownd w h v a rc v0 I Cw Hh E) as (w' & R & _ & _ & _ & Hh' & _).
+    eapply wp_eq; [exact R|]. apply Sub. eapply edges_sub_leaf; [|intros b; rewrite Hh'; reflexivity].
+    intros rc1 n1 H. injection H as _ <-. reflexivity.
+  - (* O3SetBool *)
+    destruct (hget (base s) h) as [a|] eqn:Hh; [|unfold set_bool; rewrite Hh; apply Skip].
+    destruct (Lg a eq_refl) as (_ & rc & v0 & E & Hv).
+    destruct (set_bool_step s own ownd w h b a rc v0 I Cw Hh E Hv) as (w' & R & _ & _ & _ & Hh' & _).
+    eapply wp_eq; [exact R|]. apply Sub. eapply edges_sub_leaf; [|intros b0; rewrite Hh'; reflexivity].
+    intros rc1 n1 H. injection H as _ <-. reflexivity.
+  - (* O3BuildBool *)
+    destruct (build_bool_step refuse s own ownd w b I Cw) as (s' & ok & w' & E & _ & _ & _ & [(_ & _ & _ & Hh & _)|(_ & _ & _ & Hh & _)]);
+      (eapply wp_eq; [exact E|]); apply Sub.
+    + apply edges_sub_same. intros b0. rewrite Hh. reflexivity.
+    + eapply edges_sub_leaf; [|intros b0; rewrite Hh; reflexivity]. intros rc n H. injection H as _ <-. reflexivity.
+  - (* O3NewNull *)
+    destruct (new_ctrl_set_step refuse s own ownd w 22 I Cw) as (s' & ok & w' & E & _ & _ & _ & [(_ & _ & _ & Hh & _)|(_ & _ & _ & Hh & _)]);
+      (eapply wp_eq; [exact E|]); apply Sub.
+    + apply edges_sub_same. intros b0. rewrite Hh. reflexivity.
+    + eapply edges_sub_leaf; [|exact Hh]. intros rc n H. injection H as _ <-. reflexivity.
+  - (* O3NewUndef *)
+    destruct (new_ctrl_set_step refuse s own ownd w 23 I Cw) as (s' & ok & w' & E & _ & _ & _ & [(_ & _ & _ & Hh & _)|(_ & _ & _ & Hh & _)]);
+      (eapply wp_eq; [exact E|]); apply Sub.
+    + apply edges_sub_same. intros b0. rewrite Hh. reflexivity.
+    + eapply edges_sub_leaf; [|exact Hh]. intros rc n H. injection H as _ <-. reflexivity.
+  - (* O3Move *)
+    destruct (hget (base s) h) as [a|] eqn:Hh; [|unfold move_op; rewrite Hh; apply Skip].
+    destruct (Lg a eq_refl) as (O & rc & n & E & Hrc).
+    destruct (move_step refuse s own ownd w h a rc n I Cw Hh O E Hrc) as (w' & R & _ & _ & _ & Hh' & _).
+    eapply wp_eq; [exact R|]. apply Sub. eapply (edges_sub_count w w' a rc _ n E); [lia|intros b; rewrite Hh'; reflexivity].
+  - (* O3PushMove *)
+    destruct (hget (base s) a) as [p|] eqn:Ha; [|unfold push_move; rewrite Ha; apply Skip].
+    destruct (hget (base s) x) as [q|] eqn:Hx; [|unfold push_move; rewrite Ha, Hx; apply Skip].
+    destruct (Lg p q eq_refl eq_refl) as (Hs & Op & Oq & Hpq & (rc & indef & d & c & l & Ep) & rcq & nq & Eq & H1 & Rq).
+    pose proof (Cw _ _ _ Ep) as Cap. cbn [node_ok] in Cap.
+    destruct (Bl p q eq_refl eq_refl) as (rank & HR & Hlt).
+    unfold push_move. rewrite Ha, Hx, Hs.
+    apply (wp_assoc (move q) (fun _ => array_push refuse p q)). apply wp_bind. eapply wp_mono; [eapply (push_move_edges own ownd p q w rc indef d c l rcq nq); eassumption|].
+    intros b w' S. apply wp_ret. eapply acyclic_sub_new; [exact HR| |exact S]. intros ? ? [-> ->]. exact Hlt.
+  - (* O3MapAddMove *)
+    destruct (hget (base s) m) as [p|] eqn:Hm; [|unfold map_add_move; rewrite Hm; apply Skip].
+    destruct (hget (base s) k) as [q|] eqn:Hk; [|unfold map_add_move; rewrite Hm, Hk; apply Skip].
+    destruct (hget (base s) v) as [r|] eqn:Hv; [|unfold map_add_move; rewrite Hm, Hk, Hv; apply Skip].
+    destruct (Lg p q r eq_refl eq_refl eq_refl)
+      as (Sk & Sv & Op & Oq & Or & Oqr & Hpq & Hpr & (rc & indef & d & c & l & Ep) &
+          (rcq & nq & Eq & H1 & Rq & H3) & (rcr & nr & Er & H2 & Rr)).
+    pose proof (Cw _ _ _ Ep) as Cap. cbn [node_ok] in Cap.
+    destruct (Bl p q r eq_refl eq_refl eq_refl) as (rank & HR & Hq & Hr).
+    unfold map_add_move. rewrite Hm, Hk, Hv, Sk, Sv. cbn [andb].
+    apply (wp_assoc2 (move q) (fun _ => move r) (fun _ _ => map_add refuse p q r)).
+    apply wp_bind. eapply wp_mono; [eapply (map_add_move_edges own ownd p q r w rc indef d c l rcq nq rcr nr); eassumption|].
+    intros b w' S. apply wp_ret. eapply acyclic_sub_new; [exact HR| |exact S].
+    intros ? ? [-> [->| ->]]; assumption.
+  - (* O3TagSetMove *)
+    destruct (hget (base s) t) as [p|] eqn:Ht; [|unfold tag_set_move; rewrite Ht; apply Skip].
+    destruct (hget (base s) x) as [q|] eqn:Hx; [|unfold tag_set_move; rewrite Ht, Hx; apply Skip].
+    destruct (Lg p q eq_refl eq_refl) as (Hs & Op & Oq & Hpq & (rc & v & Ep) & rcq & nq & Eq & Rq).
+    destruct (Bl p q eq_refl eq_refl) as (rank & HR & Hlt).
+    unfold tag_set_move. rewrite Ht, Hx, Hs.
+    apply (wp_assoc (move q) (fun _ => tag_set_item p q)). apply wp_bind. eapply wp_mono; [apply (tag_set_move_wp refuse own ownd p q w rc v rcq nq I Ep Oq Eq Rq Hpq)|].
+    intros u w' (_ & Hh & _). apply wp_ret.
+    eapply acyclic_sub_new; [exact HR| |eapply (edges_sub_tagset w w' p q rc v Ep Hh)]. intros ? ? [-> ->]. exact Hlt.
+  - (* O3BuildTagMove *)
+    destruct (hget (base s) x) as [q|] eqn:Hx; [|unfold build_tag_move; rewrite Hx; apply Skip].
+    destruct (Lg q eq_refl) as (Hs & Oq & rcq & nq & Eq & H1 & Rq).
+    unfold build_tag_move. rewrite Hx, Hs.
+    pose proof (build_tag_move_acyclic own ownd v q w rcq nq I Oq Eq Rq AC) as (r & w' & E & AC').
+    unfold bind in E. destruct (move q w) as [u1 w1|k1] eqn:M; [|discriminate E].
+    apply wp_bind. eapply wp_eq; [exact M|]. apply wp_lift3_any. apply wp_newh_any. eapply wp_eq; [exact E|exact AC'].
+  - (* O3IntermediateDecref *)
+    destruct (hget (base s) h) as [a|] eqn:Hh; [|unfold intermediate_decref; rewrite Hh; apply Skip].
+    unfold intermediate_decref. rewrite Hh.
+    apply wp_bind. eapply wp_mono; [apply SubW; eapply decref_edges; [exact I|exact (Lg a eq_refl)]|].
+    intros r w' AC'. apply wp_ret. exact AC'.
+  - (* O3BuildString0 *)
+    unfold build_string0. apply wp_lift3_any. apply wp_newh_any, SubW.
+    eapply wp_mono; [apply wp_build_string; exact Hwf|].
+    intros r w' (r0 & P & _). eapply ctor2_edges; [exact Hwf| |exact P]. reflexivity.
+  - (* O3SerializeTyped *)
+    destruct (hget (base s) h) as [a|] eqn:Hh; [|unfold serialize_typed; rewrite Hh; apply Skip].
+    destruct (Lg a eq_refl) as (Hs & _ & R & rc & n0 & E & Hk).
+    eapply wp_mono; [eapply (serialize_typed_wp refuse s own ownd w k h n a rc n0 I Hh Hs E Hk R)|].
+    intros r w' (_ & _ & _ & Hh' & _). apply Sub. apply edges_sub_same. exact Hh'.
+  - (* O3Preds *)
+    destruct (hget (base s) h) as [a|] eqn:Hh; [|unfold preds3; rewrite Hh; apply Skip].
+    destruct (Inv_owned_item _ _ _ _ I (Lg a eq_refl)) as (rc & n0 & E & _).
+    eapply wp_mono; [eapply (preds3_wp refuse s own ownd w h a rc n0 I Hh E)|]. intros r w' (_ & _ & ->).
+    apply Sub. apply edges_sub_same. reflexivity.
+  - (* O3Vals *)
+    destruct (hget (base s) h) as [a|] eqn:Hh; [|unfold vals3; rewrite Hh; apply Skip].
+    destruct (Lg a eq_refl) as [Hs O]. destruct (Inv_owned_item _ _ _ _ I O) as (rc & n0 & E & _).
+    eapply wp_mono; [eapply (vals3_wp refuse s own ownd w h a rc n0 I Hh Hs E)|]. intros r w' (_ & _ & ->).
+    apply Sub. apply edges_sub_same. reflexivity.
+Qed.
+
+(* every call is legal and respects the no-cycle rule, in the state in which it is issued *)
+Fixpoint rules_history3 (ops : list op3) (s : cstate3) (own : addr -> N) (w : world) : Prop :=
+  match ops with
+  | [] => True
+  | o :: r =>
+      legal3 s own w o /\ below_rule3 s w o /\
+      forall s' out w', step3 refuse L s o w = Ret (s', out) w' ->
+        rules_history3 r s' (own_after3 s o own s') w'
+  end.
+
+Lemma rules_legal3 : forall ops s own w, rules_history3 ops s own w -> legal_history3 refuse L ops s own w.
+Proof.
+  induction ops as [|o r IH]; intros s own w H; [exact Logic.I|].
+  destruct H as (Lo & _ & Lr). split; [exact Lo|]. intros s' out w' E. apply IH. eapply Lr. exact E.
+Qed.
+
+Theorem C04_history3_acyclic_gen : forall ops s own ownd w acc,
+  Inv own ownd [] w -> caps w -> acyclic w -> rules_history3 ops s own w ->
+  exists s' outs w', run_hist3 refuse L ops s acc w = Ret (s', outs) w' /\
+    Inv (own_hist3 refuse L ops s own w) ownd [] w' /\ caps w' /\ acyclic w'.
+Proof.
+  induction ops as [|o r IH]; intros s own ownd w acc I Cw AC Lg.
+  - exists s, (rev acc), w. split; [reflexivity|]. auto.
+  - destruct Lg as (Lo & Bo & Lr).
+    destruct (wp_and _ _ _ _ (C04_step3_wp refuse L s own ownd w o I Cw Lo)
+                             (step3_acyclic s own ownd w o I Cw Lo AC Bo))
+      as ([s1 out] & w1 & E & I1 & AC1).
+    unfold step3_post in I1. cbn [fst] in I1.
+    pose proof (step3_caps refuse L s o w _ w1 Cw E) as [C1 _].
+    destruct (IH s1 (own_after3 s o own s1) ownd w1 (out :: acc) I1 C1 AC1 (Lr s1 out w1 E)) as (s' & outs & w' & E' & P).
+    exists s', outs, w'. cbn [run_hist3 own_hist3]. rewrite E. split; [|exact P].
+    unfold bind. rewrite E. cbn [fst snd]. exact E'.
+Qed.
+
+(* C04, second half, for histories over all three layers, with nothing assumed of the final heap: after a
+   history that follows the rules (ownership, no read before the first store, no cycle), once the client
+   has given back all its references nothing obtained from the allocator remains *)
+Theorem C04_history3_no_leak_acyclic : forall ops s' outs w',
+  rules_history3 ops s3_0 own0 world0 ->
+  run_hist3 refuse L ops s3_0 [] world0 = Ret (s', outs) w' ->
+  (forall a, own_hist3 refuse L ops s3_0 own0 world0 a = 0) ->
+  forall a, heap w' a = None.
+Proof.
+  intros ops s' outs w' Lg E O.
+  destruct (C04_history3_acyclic_gen ops s3_0 own0 own0 world0 [] Inv_world0 caps_world0 acyclic_world0 Lg)
+    as (s1 & outs1 & w1 & E1 & I1 & _ & AC1).
+  rewrite E in E1. injection E1 as <- <- <-.
+  eapply no_leak; [exact I1|exact O|reflexivity|exact AC1].
+Qed.
+
+End Acyclic3.
+
+(* ------------------------------------------------------------------------------------------ *)
+(* 4c. allocation failure in the third layer is reported cleanly and atomically (C06)          *)
+(* ------------------------------------------------------------------------------------------ *)
+
+Section Refusal3.
+Variable refuse : N -> N -> bool.
+
+(* the one-block constructors: a NULL handle means that the one request was refused, and then the
+   heap is what it was (nothing allocated, nothing touched), the client's accounting is unchanged *)
+Theorem new_int_refusal s own ownd w iw s' w' :
+  Inv own ownd [] w -> caps w -> new_int refuse s iw w = Ret (s', Out (OutHandle false)) w' ->
+  refuse (nreq w) (SZ_ITEM + iw_bytes iw) = true /\ s' = mkcs3 (hpush (base s) None) (unset s) /\
+  heap w' = heap w /\ next w' = next w /\ trace w' = EvMalloc (SZ_ITEM + iw_bytes iw) None :: trace w /\
+  Inv own ownd [] w'.
+Proof.
+  intros I Cw H.
+  destruct (new_int_step refuse s own ownd w iw I Cw) as (s1 & ok & w1 & E & I' & _ & _ & D).
+  rewrite E in H. injection H as <- Hok <-.
+  destruct D as [(R & _ & -> & Hh & Hn & T)|(_ & -> & _)]; [|discriminate Hok].
+  rewrite new_handle3_push in I'. auto 10.
+Qed.
+
+Theorem new_float_refusal s own ownd w fw s' w' :
+  Inv own ownd [] w -> caps w -> new_float refuse s fw w = Ret (s', Out (OutHandle false)) w' ->
+  refuse (nreq w) (SZ_ITEM + fw_bytes fw) = true /\ s' = mkcs3 (hpush (base s) None) (unset s) /\
+  heap w' = heap w /\ next w' = next w /\ trace w' = EvMalloc (SZ_ITEM + fw_bytes fw) None :: trace w /\
+  Inv own ownd [] w'.
+Proof.
+  intros I Cw H.
+  destruct (new_float_step refuse s own ownd w fw I Cw) as (s1 & ok & w1 & E & I' & _ & _ & D).
+  rewrite E in H. injection H as <- Hok <-.
+  destruct D as [(R & _ & -> & Hh & Hn & T)|(_ & -> & _)]; [|discriminate Hok].
+  rewrite new_handle3_push in I'. auto 10.
+Qed.
+
+Theorem new_ctrl_refusal s own ownd w s' w' :
+  Inv own ownd [] w -> caps w -> new_ctrl refuse s w = Ret (s', Out (OutHandle false)) w' ->
+  refuse (nreq w) SZ_ITEM = true /\ s' = mkcs3 (hpush (base s) None) (unset s) /\
+  heap w' = heap w /\ next w' = next w /\ Inv own ownd [] w'.
+Proof.
+  intros I Cw H.
+  destruct (new_ctrl_step refuse s own ownd w I Cw) as (s1 & ok & w1 & E & I' & _ & _ & D).
+  rewrite E in H. injection H as <- Hok <-.
+  destruct D as [(R & _ & -> & Hh & Hn)|(_ & -> & _)]; [|discriminate Hok].
+  rewrite new_handle3_push in I'. auto 10.
+Qed.
+
+Theorem build_bool_refusal s own ownd w b s' w' :
+  Inv own ownd [] w -> caps w -> build_bool refuse s b w = Ret (s', Out (OutHandle false)) w' ->
+  refuse (nreq w) SZ_ITEM = true /\ s' = mkcs3 (hpush (base s) None) (unset s) /\
+  heap w' = heap w /\ next w' = next w /\ Inv own ownd [] w'.
+Proof.
+  intros I Cw H.
+  destruct (build_bool_step refuse s own ownd w b I Cw) as (s1 & ok & w1 & E & I' & _ & _ & D).
+  rewrite E in H. injection H as <- Hok <-.
+  destruct D as [(R & _ & -> & Hh & Hn)|(_ & -> & _)]; [|discriminate Hok].
+  rewrite new_handle3_push in I'. auto 10.
+Qed.
+
+(* cbor_new_null / cbor_new_undef (v = 22 / 23) *)
+Theorem new_ctrl_set_refusal s own ownd w v s' w' :
+  Inv own ownd [] w -> caps w -> new_ctrl_set refuse s v w = Ret (s', Out (OutHandle false)) w' ->
+  refuse (nreq w) SZ_ITEM = true /\ s' = mkcs3 (hpush (base s) None) (unset s) /\
+  heap w' = heap w /\ next w' = next w /\ Inv own ownd [] w'.
+Proof.
+  intros I Cw H.
+  destruct (new_ctrl_set_step refuse s own ownd w v I Cw) as (s1 & ok & w1 & E & I' & _ & _ & D).
+  rewrite E in H. injection H as <- Hok <-.
+  destruct D as [(R & _ & -> & Hh & Hn)|(_ & -> & _)]; [|discriminate Hok].
+  rewrite new_handle3_push in I'. auto 10.
+Qed.
+
+(* cbor_build_string: two requests (item, then buffer); whichever is refused, NULL and a clean heap:
+   an item that was obtained before the buffer was refused has been released again *)
+Theorem build_string0_refusal s bytes w s' w' :
+  wf w -> build_string0 refuse s bytes w = Ret (s', Out (OutHandle false)) w' ->
+  s' = mkcs3 (hpush (base s) None) (unset s) /\ clean_failure refuse false SZ_ITEM w w'.
+Proof.
+  intros W H. unfold build_string0, lift3, newh, bind in H.
+  destruct (build_string refuse true (upto0 bytes) w) as [r w1|k] eqn:E; [|discriminate H].
+  cbn [fst snd] in H. unfold ret in H. injection H as <- Hok <-.
+  destruct r as [a|]; [discriminate Hok|].
+  split; [reflexivity|]. eapply build_string_refusal; eassumption.
+Qed.
+
+(* cbor_array_push(a, cbor_move(x)) when the growth of the indefinite array is refused: false; the array,
+   its slots and every other cell are what they were; the only change is the count of x, one lower
+   (cbor_move has run); the client's accounting is exact when x has another reference *)
+Theorem push_move_refused s own ownd w a x p q rc d c l rcq nq c' bytes :
+  Inv own ownd [] w -> caps w ->
+  hget (base s) a = Some p -> hget (base s) x = Some q -> is_set s x = true -> 0 < own q -> p <> q ->
+  heap w p = Some (CItem rc (NArr true d c l)) -> heap w q = Some (CItem rcq nq) -> rcq < W64 ->
+  c <= len l -> grow_req SZ_PTR c = Some (c', bytes) -> refuse (nreq w) bytes = true ->
+  exists w', push_move refuse s a x w = Ret (s, Out (OutBool false)) w' /\
+    (forall b, heap w' b = upd (heap w) q (Some (CItem (rcq - 1) nq)) b) /\ next w' = next w /\
+    (1 < rcq -> Inv (own_dec own q) ownd [] w').
+Proof.
+  intros I Cw Ha Hx Hs Oq Hpq Ep Eq Rq Full G R.
+  destruct (push_move_step refuse s own ownd w a x p q rc true d c l rcq nq I Cw Ha Hx Hs Oq Hpq Ep Eq Rq)
+    as (ok & w' & E & _ & Pf).
+  assert (Hok : ok = false).
+  { pose proof (Cw _ _ _ Ep) as Cap. cbn [node_ok capinvA] in Cap. destruct Cap as (C1 & C2 & C3).
+    destruct (moved_facts refuse own ownd w q rcq nq I Eq) as (Pq & H1 & N1 & W1 & E1q & O1).
+    set (w1 := w_move q rcq nq w) in *.
+    assert (E1p : heap w1 p = Some (CItem rc (NArr true d c l))) by (rewrite O1 by exact Hpq; exact Ep).
+    assert (BI : block_inv w1 d c).
+    { destruct d as [o|]; [|apply C1; reflexivity].
+      destruct (Inv_blocks _ _ _ _ _ _ I Ep o ltac:(left; reflexivity)) as [(sz & Eb) _].
+      exists sz. rewrite O1; [exact Eb|]. intros ->. rewrite Eq in Eb. discriminate. }
+    destruct (push_refused_atomic refuse p q w1 rc d c l (rcq - 1) nq c' bytes W1 E1p BI E1q Hpq C2 Full G R)
+      as (w2 & E2 & _).
+    unfold push_move in E. rewrite Ha, Hx, Hs in E.
+    rewrite (bind_Ret _ _ _ _ _ (move_spec q w rcq nq Eq)) in E. fold w1 in E.
+    rewrite (bind_Ret _ _ _ _ _ E2) in E. unfold ret in E. injection E as <- _. reflexivity. }
+  subst ok. exists w'. split; [exact E|]. destruct (Pf eq_refl) as (Hh & Hn & Pi). auto.
+Qed.
+
+(* cbor_map_add(m, {cbor_move(k), cbor_move(v)}) when the growth of the indefinite map is refused *)
+Theorem map_add_move_refused s own ownd w m k v p q r rc d c l rcq nq rcr nr c' bytes :
+  Inv own ownd [] w -> caps w ->
+  hget (base s) m = Some p -> hget (base s) k = Some q -> hget (base s) v = Some r ->
+  is_set s k = true -> is_set s v = true ->
+  0 < own q -> 0 < own r -> (q = r -> 1 < own q) -> p <> q -> p <> r ->
+  heap w p = Some (CItem rc (NMap true d c l)) ->
+  heap w q = Some (CItem rcq nq) -> heap w r = Some (CItem rcr nr) -> rcq < W64 -> rcr < W64 ->
+  c <= len l -> grow_req SZ_PAIR c = Some (c', bytes) -> refuse (nreq w) bytes = true ->
+  exists w', map_add_move refuse s m k v w = Ret (s, Out (OutBool false)) w' /\
+    next w' = next w /\ (forall b, b <> q -> b <> r -> heap w' b = heap w b) /\
+    (1 < rcq -> 1 < rcr -> (q = r -> 2 < rcq) -> Inv (own_dec (own_dec own q) r) ownd [] w').
+Proof.
+  intros I Cw Hm Hk Hv Sk Sv Oq Or Oqr Hpq Hpr Ep Eq Er Rq Rr Full G R.
+  destruct (map_add_move_step refuse s own ownd w m k v p q r rc true d c l rcq nq rcr nr I Cw Hm Hk Hv Sk Sv Oq Or Oqr
+              Hpq Hpr Ep Eq Er Rq Rr) as (ok & w' & E & _ & Pf).
+  assert (Hok : ok = false).
+  { pose proof (Inv_nil_pos _ _ _ _ _ _ I Eq) as Pq.
+    destruct (moved_facts' w q rcq nq (Inv_wf _ _ _ _ I) Eq Pq) as (H1 & N1 & W1 & E1q & O1).
+    set (w1 := w_move q rcq nq w) in *.
+    assert (exists rcr1, heap w1 r = Some (CItem rcr1 nr) /\ 0 < rcr1) as (rcr1 & E1r & Pr1).
+    { destruct (N.eq_dec r q) as [->|Hrq].
+      - assert (rcr = rcq /\ nr = nq) as [-> ->] by (rewrite Eq in Er; injection Er as <- <-; auto).
+        exists (rcq - 1). split; [exact E1q|]. pose proof (own_le_rc refuse own ownd w q rcq nq I Eq). specialize (Oqr eq_refl). lia.
+      - exists rcr. split; [rewrite O1 by exact Hrq; exact Er|]. eapply Inv_nil_pos; eassumption. }
+    destruct (moved_facts' w1 r rcr1 nr W1 E1r Pr1) as (H2 & N2 & W2 & E2r & O2).
+    set (w2 := w_move r rcr1 nr w1) in *.
+    assert (E2p : heap w2 p = Some (CItem rc (NMap true d c l))).
+    { rewrite O2 by exact Hpr. rewrite O1 by exact Hpq. exact Ep. }
+    assert (Dk : data_ok w2 d).
+    { destruct d as [o|]; [|exact Logic.I].
+      destruct (Inv_blocks _ _ _ _ _ _ I Ep o ltac:(left; reflexivity)) as [(sz & Eb) _].
+      exists sz. rewrite O2, O1; [exact Eb| |]; intros ->; [rewrite Eq in Eb|rewrite Er in Eb]; discriminate. }
+    pose proof (map_add_refused refuse p q r w2 rc d c l c' bytes E2p Dk Full G R) as E2.
+    unfold map_add_move in E. rewrite Hm, Hk, Hv, Sk, Sv in E. cbn [andb] in E.
+    rewrite (bind_Ret _ _ _ _ _ (move_spec q w rcq nq Eq)) in E. fold w1 in E.
+    rewrite (bind_Ret _ _ _ _ _ (move_spec r w1 rcr1 nr E1r)) in E. fold w2 in E.
+    rewrite (bind_Ret _ _ _ _ _ E2) in E. unfold ret in E. injection E as <- _. reflexivity. }
+  subst ok. exists w'. split; [exact E|]. destruct (Pf eq_refl) as (Hn & Hh & Pi). auto.
+Qed.
+
+(* cbor_build_tag(v, cbor_move(x)) when the tag's request is refused: NULL; nothing but the count of x
+   has changed *)
+Theorem build_tag_move_refused s own ownd w v x q rcq nq :
+  Inv own ownd [] w -> hget (base s) x = Some q -> is_set s x = true ->
+  0 < own q -> heap w q = Some (CItem rcq nq) -> rcq < W64 -> refuse (nreq w) SZ_ITEM = true ->
+  exists w', build_tag_move refuse s v x w = Ret (mkcs3 (hpush (base s) None) (unset s), Out (OutHandle false)) w' /\
+    (forall b, heap w' b = upd (heap w) q (Some (CItem (rcq - 1) nq)) b) /\ next w' = next w /\
+    (1 < rcq -> Inv (own_dec own q) ownd [] w').
+Proof.
+  intros I Hx Hs Oq Eq Rq R.
+  destruct (build_tag_move_step refuse s own ownd w v x q rcq nq I Hx Hs Oq Eq Rq) as (s' & ok & w' & E & D).
+  assert (E' : exists w2, build_tag_move refuse s v x w = Ret (mkcs3 (hpush (base s) None) (unset s), Out (OutHandle false)) w2).
+  { unfold build_tag_move. rewrite Hx, Hs.
+    rewrite (bind_Ret _ _ _ _ _ (move_spec q w rcq nq Eq)).
+    set (w1 := w_move q rcq nq w).
+    assert (R1 : refuse (nreq w1) SZ_ITEM = true) by exact R.
+    eexists. apply (lift3_newh_eq s (build_tag refuse v q) w1 None).
+    unfold build_tag, new_tag. rewrite (bind_Ret _ _ _ _ _ (malloc_refused refuse SZ_ITEM _ w1 R1)). reflexivity. }
+  destruct E' as [w2 E']. rewrite E' in E. injection E as <- <- <-.
+  destruct D as [(Hok & _)|(_ & _ & Hh & Hn & Pi)]; [discriminate Hok|].
+  exists w2. auto.
+Qed.
+
+End Refusal3.
+
+(* ------------------------------------------------------------------------------------------ *)
+(* 4d. the read-only calls of the third layer never write (C18)                                *)
+(* ------------------------------------------------------------------------------------------ *)
+
+(* in the sense of HRead_proofs.readonly: for EVERY world and handle (no legality is asked: a call that
+   faults returns nothing) the heap, the bump pointer, the request counter and the allocator trace are
+   unchanged, and everything appended to the access log is a read *)
+Theorem serialize_typed_readonly s k h n : readonly (serialize_typed s k h n).
+Proof.
+  unfold serialize_typed. destruct (hget (base s) h) as [a|]; [|apply readonly_ret].
+  destruct (memN a (unset s)); [apply readonly_fail|].
+  apply readonly_bind; [apply readonly_rd_item|]. intros c.
+  apply readonly_bind; [apply readonly_assert|]. intros _.
+  apply readonly_bind; [apply serialize_readonly_pred|]. intros [[wr bytes]|]; [apply readonly_ret|apply readonly_fail].
+Qed.
+
+Theorem preds3_readonly s h : readonly (preds3 s h).
+Proof.
+  unfold preds3. destruct (hget (base s) h) as [a|]; [|apply readonly_ret].
+  apply readonly_bind; [apply readonly_rd_item|]. intros c. apply readonly_ret.
+Qed.
+
+Theorem vals3_readonly s h : readonly (vals3 s h).
+Proof.
+  unfold vals3. destruct (hget (base s) h) as [a|]; [|apply readonly_ret].
+  destruct (memN a (unset s)); [apply readonly_fail|].
+  apply readonly_bind; [apply readonly_rd_item|]. intros c. apply readonly_ret.
+Qed.
+
+(* the same in the form of C18_no_writes / C18_heap_unchanged: every store in the access log after the
+   call was already in the log before it; every cell is what it was; no allocator request, no event *)
+Definition no_write_rel (w w' : world) : Prop :=
+  (forall b, In (AccW b) (alog w') -> In (AccW b) (alog w)) /\ (forall b, heap w' b = heap w b) /\
+  next w' = next w /\ nreq w' = nreq w /\ trace w' = trace w.
+
+Lemma readonly_no_writes {A} (m : M A) : readonly m -> forall w r w', m w = Ret r w' -> no_write_rel w w'.
+Proof.
+  intros RO w r w' E. pose proof (RO w r w' E) as R. split; [eapply ro_rel_no_writes; exact R|].
+  destruct R as (Hh & Hn & Hq & Ht & _). split; [intros b; rewrite Hh; reflexivity|]. auto.
+Qed.
+
+Theorem serialize_typed_no_writes : forall s k h n w r w', serialize_typed s k h n w = Ret r w' -> no_write_rel w w'.
+Proof. intros s k h n. apply readonly_no_writes, serialize_typed_readonly. Qed.
+Theorem preds3_no_writes : forall s h w r w', preds3 s h w = Ret r w' -> no_write_rel w w'.
+Proof. intros s h. apply readonly_no_writes, preds3_readonly. Qed.
+Theorem vals3_no_writes : forall s h w r w', vals3 s h w = Ret r w' -> no_write_rel w w'.
+Proof. intros s h. apply readonly_no_writes, vals3_readonly. Qed.
+
+(* as calls of [step3]: for every allocator oracle and nesting limit *)
+Theorem C18_no_writes3 : forall refuse L s o w r w',
+  match o with O3SerializeTyped _ _ _ | O3Preds _ | O3Vals _ => True | _ => False end ->
+  step3 refuse L s o w = Ret r w' -> no_write_rel w w'.
+Proof.
+  intros refuse L s o w r w' Ho E. destruct o; try destruct Ho; cbn [step3] in E.
+  - eapply serialize_typed_no_writes; exact E.
+  - eapply preds3_no_writes; exact E.
+  - eapply vals3_no_writes; exact E.
+Qed.
+
+(* ------------------------------------------------------------------------------------------ *)
 (* 5. non-vacuity: concrete histories, by computation                                          *)
 (* ------------------------------------------------------------------------------------------ *)
 
@@ -1347,28 +2027,43 @@ Ltac ex3_room := let rc := fresh "rc" in let n := fresh "n" in let H := fresh "H
   intros rc n H; vm_compute in H; injection H as <- <-; vm_compute; reflexivity.
 Ltac ex3_c := vm_compute; reflexivity.
 
-Example ex3_rules : legal_history3 never 8 ex3_ops s3_0 own0 world0.
+Ltac ex3_noedge := let a := fresh "a" in let k := fresh "k" in let rc := fresh "rc" in let n := fresh "n" in
+  let E := fresh "E" in let R := fresh "R" in let K := fresh "K" in
+  intros a k (rc & n & E & R & K);
+  destruct a as [|a]; [|do 3 (try destruct a as [a|a|])]; vm_compute in E; try discriminate E;
+  injection E as <- <-; cbn in K; try (destruct K; fail); destruct K as [<-|[]]; vm_compute; lia.
+
+Example ex3_rules3 : rules_history3 never 8 ex3_ops s3_0 own0 world0.
 Proof.
   unfold ex3_ops.
-  split; [exact I|ex3_next].
-  split. { intros a Ha. ex3_h Ha. split; [ex3_c|]. vm_compute. do 3 eexists. reflexivity. } ex3_next.
-  split. { intros a Ha. ex3_h Ha. split; [ex3_c|]. vm_compute. do 4 eexists. reflexivity. } ex3_next.
-  split. { intros a Ha. ex3_h Ha. split; ex3_c. } ex3_next.
+  split; [exact I|]. split; [exact I|ex3_next].
+  split. { intros a Ha. ex3_h Ha. split; [ex3_c|]. vm_compute. do 3 eexists. reflexivity. } split; [exact I|ex3_next].
+  split. { intros a Ha. ex3_h Ha. split; [ex3_c|]. vm_compute. do 4 eexists. reflexivity. } split; [exact I|ex3_next].
+  split. { intros a Ha. ex3_h Ha. split; ex3_c. } split; [exact I|ex3_next].
   split. { intros a Ha. ex3_h Ha. split; [ex3_c|]. split; [ex3_c|]. split; [eapply abs_readable; vm_compute; reflexivity|].
-           vm_compute. do 2 eexists. split; reflexivity. } ex3_next.
-  split. { split; [exact I|reflexivity]. } ex3_next.
-  split. { split; [|reflexivity]. intros p Hp. ex3_h Hp. split; [ex3_c|ex3_room]. } ex3_next.
+           vm_compute. do 2 eexists. split; reflexivity. } split; [exact I|ex3_next].
+  split. { split; [exact I|reflexivity]. } split; [exact I|ex3_next].
+  split. { split; [|reflexivity]. intros p Hp. ex3_h Hp. split; [ex3_c|ex3_room]. } split; [exact I|ex3_next].
   split. { intros p q Hp Hq. ex3_h Hp. ex3_h Hq. split; [ex3_c|]. split; [ex3_c|]. split; [ex3_c|]. split; [discriminate|].
-           split; [vm_compute; do 5 eexists; reflexivity|]. exists 2, (NInt true I8 200). split; [ex3_c|]. split; reflexivity. } ex3_next.
-  split; [exact I|ex3_next].
-  split. { split; [exact I|reflexivity]. } ex3_next.
+           split; [vm_compute; do 5 eexists; reflexivity|]. exists 2, (NInt true I8 200). split; [ex3_c|]. split; reflexivity. }
+  split. { intros p q Hp Hq. ex3_h Hp. ex3_h Hq. exists (fun x => if x =? 2 then 1%nat else 0%nat). split; [ex3_noedge|vm_compute; lia]. }
+  ex3_next.
+  split; [exact I|]. split; [exact I|ex3_next].
+  split. { split; [exact I|reflexivity]. } split; [exact I|ex3_next].
   split. { intros p q Hp Hq. ex3_h Hp. ex3_h Hq. split; [ex3_c|]. split; [ex3_c|]. split; [ex3_c|]. split; [discriminate|].
-           split; [vm_compute; do 2 eexists; reflexivity|]. exists 1, (NCtrl 22). split; [ex3_c|reflexivity]. } ex3_next.
-  split. { intros a Ha. ex3_h Ha. split; [ex3_c|]. exists 2, (NInt true I8 200). split; [ex3_c|reflexivity]. } ex3_next.
-  split. { intros a Ha. ex3_h Ha. ex3_c. } ex3_next.
-  split. { intros a Ha. ex3_h Ha. ex3_c. } ex3_next.
+           split; [vm_compute; do 2 eexists; reflexivity|]. exists 1, (NCtrl 22). split; [ex3_c|reflexivity]. }
+  split. { intros p q Hp Hq. ex3_h Hp. ex3_h Hq.
+           exists (fun x => if x =? 2 then 1%nat else if x =? 5 then 1%nat else 0%nat). split; [ex3_noedge|vm_compute; lia]. }
+  ex3_next.
+  split. { intros a Ha. ex3_h Ha. split; [ex3_c|]. exists 2, (NInt true I8 200). split; [ex3_c|reflexivity]. } split; [exact I|ex3_next].
+  split. { intros a Ha. ex3_h Ha. ex3_c. } split; [exact I|ex3_next].
+  split. { intros a Ha. ex3_h Ha. ex3_c. } split; [exact I|ex3_next].
   exact I.
 Qed.
+
+Corollary ex3_rules : legal_history3 never 8 ex3_ops s3_0 own0 world0.
+Proof. apply rules_legal3. exact ex3_rules3. Qed.
+
 
 (* ... it runs as the theorem says: the getters see -201 stored as (negint, 8 bits, 200), the bytes are
    38 c8, nothing is left, and the client holds nothing *)
@@ -1377,7 +2072,7 @@ Example ex3_runs :
   | Ret (s', outs) w' =>
       s' = mkcs3 (mkcs [Some 1; Some 2; Some 4; Some 5]) [] /\
       outs = [Out (OutHandle true); Out OutUnit; Out OutUnit;
-              OutVals [1; 0; 1; 0; 0; 0; 0; 0; 0; 1; 0; 0; 0; 0; 0; 200; 200];
+              OutVals [1; 0; 1; 0; 0; 0; 0; 0; 0; 1; 0; 0; 0; 0; 0; 1; 200; 200];
               Out (OutBytes 2 [56; 200]); Out (OutHandle true); Out OutUnit; Out (OutBool true);
               Out (OutHandle true); Out (OutHandle true); Out OutUnit; Out OutUnit; Out OutUnit; Out OutUnit] /\
       live_count w' = 0 /\
@@ -1412,8 +2107,8 @@ Example ex3_unset_allowed :
   match run_hist3 never 8 [O3NewInt I32; O3Preds 0; O3Mark true 0; O3Old (OIncref 0); O3Move 0; O3Preds 0;
                            O3IntermediateDecref 0]%nat s3_0 [] world0 with
   | Ret (s', outs) w' =>
-      outs = [Out (OutHandle true); OutVals [0; 1; 0; 0; 0; 0; 0; 0; 0; 1; 0; 0; 0; 0; 2]; Out OutUnit; Out OutUnit;
-              Out OutUnit; OutVals [1; 0; 1; 0; 0; 0; 0; 0; 0; 1; 0; 0; 0; 0; 2]; Out OutUnit] /\
+      outs = [Out (OutHandle true); OutVals [0; 1; 0; 0; 0; 0; 0; 0; 0; 1; 0; 0; 0; 0; 2; 1]; Out OutUnit; Out OutUnit;
+              Out OutUnit; OutVals [1; 0; 1; 0; 0; 0; 0; 0; 0; 1; 0; 0; 0; 0; 2; 1]; Out OutUnit] /\
       unset s' = [1] /\ live_count w' = 0
   | Fault _ => False
   end.
@@ -1468,6 +2163,31 @@ Example ex3_build_string0 :
   upto0 [0x61; 0x62; 0; 0x63] = [0x61; 0x62] /\ upto0 [0; 1] = [] /\ upto0 [0xC3; 0xA9] = [0xC3; 0xA9].
 Proof. repeat split. Qed.
 
+(* C06: the growth request of cbor_array_push(a, cbor_move(x)) / cbor_map_add(m, {cbor_move(k), cbor_move(k)})
+   (the third request) is refused: false, the container untouched, the moved counts one / two lower,
+   nothing allocated *)
+Example ex3_push_move_refused :
+  match run_hist3 (fun i _ => i =? 2) 8
+          [O3Old ONewIndefArray; O3Old (OBuildInt false I8 7); O3Old (OIncref 1); O3PushMove 0 1]%nat s3_0 [] world0 with
+  | Ret (s', outs) w' =>
+      outs = [Out (OutHandle true); Out (OutHandle true); Out OutUnit; Out (OutBool false)] /\
+      map (heap w') [1; 2; 3] = [Some (CItem 1 (NArr true None 0 [])); Some (CItem 1 (NInt false I8 7)); None] /\
+      trace w' = [EvRealloc None 8 None; EvMalloc 49 (Some 2); EvMalloc 48 (Some 1)]
+  | Fault _ => False
+  end.
+Proof. vm_compute. repeat split. Qed.
+Example ex3_map_add_move_refused :
+  match run_hist3 (fun i _ => i =? 2) 8
+          [O3Old ONewIndefMap; O3Old (OBuildInt false I8 7); O3Old (OIncref 1); O3Old (OIncref 1); O3Old (OIncref 1);
+           O3MapAddMove 0 1 1]%nat s3_0 [] world0 with
+  | Ret (s', outs) w' =>
+      last outs (Out OutSkip) = Out (OutBool false) /\
+      map (heap w') [1; 2; 3] = [Some (CItem 1 (NMap true None 0 [])); Some (CItem 2 (NInt false I8 7)); None] /\
+      trace w' = [EvRealloc None 16 None; EvMalloc 49 (Some 2); EvMalloc 48 (Some 1)]
+  | Fault _ => False
+  end.
+Proof. vm_compute. repeat split. Qed.
+
 Print Assumptions Inv_renode.
 Print Assumptions Inv_move.
 Print Assumptions new_int_step.
@@ -1497,3 +2217,22 @@ Print Assumptions C04_history3.
 Print Assumptions C04_history3_no_leak.
 Print Assumptions ex3_rules.
 Print Assumptions ex3_theorem_applies.
+Print Assumptions step3_acyclic.
+Print Assumptions C04_history3_no_leak_acyclic.
+Print Assumptions new_int_refusal.
+Print Assumptions new_float_refusal.
+Print Assumptions new_ctrl_refusal.
+Print Assumptions build_bool_refusal.
+Print Assumptions new_ctrl_set_refusal.
+Print Assumptions build_string0_refusal.
+Print Assumptions push_move_refused.
+Print Assumptions map_add_move_refused.
+Print Assumptions build_tag_move_refused.
+Print Assumptions serialize_typed_readonly.
+Print Assumptions preds3_readonly.
+Print Assumptions vals3_readonly.
+Print Assumptions serialize_typed_no_writes.
+Print Assumptions preds3_no_writes.
+Print Assumptions vals3_no_writes.
+Print Assumptions C18_no_writes3.
+Print Assumptions ex3_rules3.
